@@ -10,17 +10,17 @@ import sys, os, json, warnings, importlib
 
 def build_module(moddir, ver, shift=0, name="cachedmod", body=None):
     os.makedirs(moddir, exist_ok=True)
-    src = "\n" * shift + "import os\n\n\ndef f(x, y=0):\n    with open(os.environ['VERIF_EXEC_LOG'], 'a') as h:\n        h.write('%d %%r %%r\\n' %% (x, y))\n    return ['v%d', x, y]\n" % (ver, ver)
+    src = "\n" * shift + "import os\n\n\ndef f(x, y=0):\n    # cach\u00e9 \u2713 (non-ASCII on purpose: torn writes may split a character)\n    with open(os.environ['VERIF_EXEC_LOG'], 'a') as h:\n        h.write('%d %%r %%r\\n' %% (x, y))\n    return ['v%d', x, y]\n" % (ver, ver)
     if body:
         src = body
     p = os.path.join(moddir, name + ".py")
     try:
-        if open(p).read() == src:
+        if open(p, encoding="utf-8").read() == src:
             return p
     except OSError:
         pass
     tmp = p + ".%d" % os.getpid()
-    with open(tmp, "w") as h:
+    with open(tmp, "w", encoding="utf-8") as h:
         h.write(src)
     os.replace(tmp, p)          # participants share the module directory: never expose a half-written module
     return p
@@ -63,6 +63,11 @@ def main(spec=None, out=None):
               elif op[0] == "clear": g.clear(warn=False); rec["value"] = "cleared"
               elif op[0] == "clear_all": mem.clear(warn=False); rec["value"] = "cleared"
               elif op[0] == "reduce": mem.reduce_size(**op[1]); rec["value"] = "reduced"
+              elif op[0] == "orphan":
+                  # an entry directory without any file: what a writer killed between mkdir and its first open leaves behind
+                  for nm in op[1:]:
+                      os.makedirs(os.path.join(g.store_backend.location, g.func_id, nm), exist_ok=True)
+                  rec["value"] = "made"
               elif op[0] == "loadall":
                   bad = []
                   for dp, dn, fn in os.walk(spec["root"]):
